@@ -5,6 +5,7 @@ import (
 	"bytes"
 	"encoding/hex"
 	"fmt"
+	"github.com/Allenxuxu/ringbuffer"
 	"os"
 	"sort"
 	"strings"
@@ -730,6 +731,43 @@ func genC09(e *emitter, tier string, seed uint64) map[string]interface{} {
 					got = fmt.Sprintf("%d pairs, body %q", len(dec.Metadata.Values), dec.Body)
 				}
 				e.fail(idx, "budget", fmt.Sprintf("a v2 packet whose %d metadata pairs encode to %d bytes: the frame decodes to %s (err=%v); the pairs that fit 65535 bytes are %d and the body is \"body\"", npairs, total, got, derr, len(want)))
+			}
+		}
+	}
+	// 8. the block on its way through the STREAMING decoder of a connection: metadata blocks of 250 / 300 / 4000 bytes (the second and third
+	// need both bytes of metadata_len) in frames that start 0..16 bytes before the physical end of the ring buffer — the map that comes out is
+	// the map that went in, wherever the header's fields fall
+	for _, vl := range []int{250, 300, 4000} {
+		vals := map[string]string{"k": string(bytes.Repeat([]byte{'v'}, vl)), "second": "x"}
+		pkv, err := protocol.NewPush(newCtx(2, protocol.CodecProtobuf), 77, []byte("body"))
+		if err != nil {
+			continue
+		}
+		pkv.Metadata.Values = vals
+		frame, perr := proto(2).Pack(newCtx(2, protocol.CodecProtobuf), &pkv)
+		if perr != nil {
+			continue
+		}
+		c := len(frame) + 2
+		for back := 0; back <= 16; back++ {
+			res := guard(func() string {
+				rb := ringbuffer.New(c)
+				pre := c - back
+				_, _ = rb.Write(make([]byte, pre))
+				_, _ = rb.Read(make([]byte, pre)) // moves the read and write offsets to `pre` (Retrieve would rewind an emptied ring)
+				_, _ = rb.Write(frame)
+				pk, done, err := proto(2).Unpack(newCtx(2, protocol.CodecProtobuf), rb)
+				if err != nil || !done || pk == nil {
+					return fmt.Sprintf("done=%v err=%v", done, err)
+				}
+				if showMap(pk.Metadata.Values) != showMap(vals) || !bytes.Equal(pk.Body, []byte("body")) {
+					return fmt.Sprintf("decoded %d pairs, body %q", len(pk.Metadata.Values), pk.Body)
+				}
+				return "ok"
+			})
+			idx := e.op(fmt.Sprintf("gz.note md-stream vl=%d back=%d", vl, back), "ok", "stream-wrap", true)
+			if res != "ok" {
+				e.fail(idx, "roundtrip", fmt.Sprintf("a v2 frame whose metadata block has a %d-byte value, starting %d bytes before the end of the ring buffer, through the streaming decoder: %s (want the 2 pairs and the body that were packed)", vl, back, res))
 			}
 		}
 	}
